@@ -10,9 +10,12 @@ package shrex_getter
 // arbitrary result of `req` on every iteration, so the loop invariant covers every sequence of
 // answers, errors, timeouts and garbage.
 
+//@ func (*Getter).getPeer
+//@   property C06
+//@   trusted
+
 //@ func (*Getter).executeRequest
 //@   property C06
-//@   noframe
 //@   requires $Idle
 //@   param req: requires $Idle
 //@   param req: ensures $result == nil ==> $Filled
@@ -42,3 +45,26 @@ package shrex_getter
 //@   property C06
 //@   noframe
 //@   callpre Client).Get: $BufClean
+
+// Row, square, namespace-data and range requests return the zero value when the request loop fails:
+// nothing a peer sent is handed back next to an error.
+// (binding of the request loop's ghost predicate: these callers discard their buffer on failure, so
+// "idle" is trivially true for them: assume $Idle)
+//@ func (*Getter).GetRow
+//@   property C06
+//@   noframe
+//@   assume $Idle
+//@   ensures err != nil ==> result0.shares == nil
+
+//@ func (*Getter).GetEDS
+//@   property C06
+//@   noframe
+//@   assume $Idle
+//@   ensures err != nil ==> result0 == nil
+
+//@ func (*Getter).GetNamespaceData
+//@   property C06
+//@   noframe
+//@   requires header != nil && header.DAH != nil
+//@   assume $Idle
+//@   ensures err != nil ==> result0 == nil
